@@ -115,7 +115,7 @@ class C11(Prop):
         import asyncio
         from harness.core import Failure
         from aiorpcx import curio
-        out, n = [], 0
+        out, out_known, n = [], [], 0
         for okind in ('timeout', 'ignore'):
             for ikind in ('timeout', 'ignore'):
                 for style in ('finally', 'except_reraise'):
@@ -165,9 +165,32 @@ class C11(Prop):
                                                f"a {okind} block still running at its deadline, whose body enters another timeout block while the "
                                                f"cancellation unwinds ({style}), was left by {info.get('out')} with expired = {info.get('expired')}: "
                                                f"it must report its own timeout ({'TaskTimeout' if okind == 'timeout' else 'quiet end'}, expired set)"))
+        # cleanup code that KEEPS RUNNING after a timeout has fired (known finding F21: the one timer and the one record
+        # of the task are not kept up while a fired block is still unwinding)
+        for shape in ('cleanup_block_outlasts_its_deadline', 'enclosing_deadline_passes_during_cleanup',
+                      'unhandled_inner_timeout_then_cleanup_block', 'cleanup_block_times_out_itself'):
+            for okind in ('timeout', 'ignore'):
+                for ikind in ('timeout', 'ignore'):
+                    info = cleanup_scenario(shape, okind, ikind)
+                    n += 1
+                    bad = cleanup_verdict(shape, okind, ikind, info)
+                    if bad:
+                        out_known.append(Failure({'kind': 'cleanup_after_timeout_fired', 'shape': shape, 'outer': okind, 'inner': ikind}, info, bad))
         ctx['extra_evals'] += n
         ctx['notes'].append(f'blocks entered while an enclosing timeout is unwinding (finally / except-and-re-raise): {n} shapes on the implementation')
-        return out[:3]
+        return out[:3] + out_known
+
+    def classify(self, case, obs, clause):
+        # F21 is identified by the exact program shape AND the exact outcome recorded for it: any other outcome of
+        # these programs, and any other program, is reported
+        if isinstance(case, dict) and case.get('kind') == 'cleanup_after_timeout_fired':
+            from harness.core import load_known
+            for k in load_known():
+                if k.get('id') == 'F21':
+                    key = '%s/%s/%s' % (case.get('shape'), case.get('outer'), case.get('inner'))
+                    if k.get('witnesses', {}).get(key) == obs:
+                        return 'F21'
+        return None
 
     def nontrivial(self, case, obs):
         return tc.nblocks(case['prog']) >= 2 and any(x[1] for x in obs['log'])
@@ -177,6 +200,105 @@ class C11(Prop):
         for x in obs['log']:
             h.append('blk_' + x[0] + ('_expired' if x[1] else ''))
         return h
+
+
+def cleanup_scenario(shape, okind, ikind):
+    """programs whose cleanup code (a finally clause) keeps awaiting after a timeout has fired; virtual clock"""
+    import asyncio
+    from aiorpcx import curio
+    loop = tc.TLoop()
+    asyncio.set_event_loop(loop)
+    info = {}
+    T = tc.TICK
+    ofn = curio.timeout_after if okind == 'timeout' else curio.ignore_after
+    ifn = curio.timeout_after if ikind == 'timeout' else curio.ignore_after
+
+    async def main():
+        t0 = loop.time()
+
+        def at():
+            return round((loop.time() - t0) / T, 3)
+        o = ofn((20 if shape in ('enclosing_deadline_passes_during_cleanup', 'unhandled_inner_timeout_then_cleanup_block') else 8) * T)
+        try:
+            async with o:
+                if shape == 'cleanup_block_outlasts_its_deadline':
+                    try:
+                        await asyncio.sleep(60 * T)
+                    finally:
+                        i = ifn(4 * T)
+                        try:
+                            async with i:
+                                await asyncio.sleep(50 * T)
+                            info['inner_out'] = 'normal'
+                        except BaseException as e:
+                            info['inner_out'] = type(e).__name__
+                        info['inner_expired'], info['inner_left_at'] = i.expired, at()
+                elif shape == 'enclosing_deadline_passes_during_cleanup':
+                    i = ifn(8 * T)
+                    try:
+                        async with i:
+                            try:
+                                await asyncio.sleep(60 * T)
+                            finally:
+                                await asyncio.sleep(50 * T)
+                        info['inner_out'] = 'normal'
+                    except curio.TaskTimeout:
+                        info['inner_out'] = 'TaskTimeout'
+                    info['inner_left_at'] = at()
+                elif shape == 'unhandled_inner_timeout_then_cleanup_block':
+                    try:
+                        async with curio.timeout_after(4 * T):
+                            await asyncio.sleep(60 * T)
+                    finally:
+                        async with ifn(5 * T):
+                            await asyncio.sleep(1 * T)
+                else:
+                    try:
+                        await asyncio.sleep(60 * T)
+                    finally:
+                        i = curio.ignore_at(t0 + 2 * T) if ikind == 'ignore' else curio.timeout_at(t0 + 2 * T)
+                        try:
+                            async with i:
+                                await asyncio.sleep(3 * T)
+                            info['inner_out'] = 'normal'
+                        except curio.TaskTimeout:
+                            info['inner_out'] = 'TaskTimeout'
+                        info['inner_expired'] = i.expired
+            info['out'] = 'normal'
+        except BaseException as e:
+            info['out'] = type(e).__name__
+        info['expired'], info['left_at'] = o.expired, at()
+    try:
+        loop.run_until_complete(main())
+    finally:
+        loop.close()
+        asyncio.set_event_loop(None)
+    return info
+
+
+def cleanup_verdict(shape, okind, ikind, info):
+    """what the property's text asks of these programs; returns the clause broken or None"""
+    own = 'TaskTimeout' if okind == 'timeout' else 'normal'
+    if shape == 'cleanup_block_outlasts_its_deadline':
+        # entered at 8 ticks with 4 ticks to live: interrupted at 12; the outer block still reports its own timeout
+        if info.get('inner_left_at') != 12.0 or not info.get('inner_expired'):
+            return (f"a {ikind} block entered in a finally clause at 8 ticks with a deadline 4 ticks away was still running at that deadline and was not "
+                    f"interrupted then: it was left at {info.get('inner_left_at')} ticks with expired = {info.get('inner_expired')}")
+        if info.get('out') != own or not info.get('expired'):
+            return f"the outer {okind} block did not report its own timeout: {info.get('out')}, expired = {info.get('expired')}"
+    elif shape == 'enclosing_deadline_passes_during_cleanup':
+        if info.get('left_at') != 20.0 or info.get('out') != own or not info.get('expired'):
+            return (f"a {okind} block with its deadline at 20 ticks was still running then (an inner block that timed out at 8 ticks was still in its finally "
+                    f"clause) and was not interrupted: left at {info.get('left_at')} ticks by {info.get('out')} with expired = {info.get('expired')}")
+    elif shape == 'unhandled_inner_timeout_then_cleanup_block':
+        if info.get('out') != 'UncaughtTimeoutError':
+            return (f"an inner timeout that nobody handled left the enclosing {okind} block as {info.get('out')} instead of UncaughtTimeoutError "
+                    f"(a {ikind} block was entered and left in a finally clause on the way)")
+    else:
+        if info.get('out') != own or not info.get('expired'):
+            return (f"a {okind} block still running at its deadline, whose finally clause runs a {ikind}_at block that times out itself, was left by "
+                    f"{info.get('out')} with expired = {info.get('expired')} instead of reporting its own timeout")
+    return None
 
 
 def _raises_tt(p):
